@@ -801,6 +801,13 @@ class Distribution(ScalarDistribution):
         __delitem__
 
         """
+        try:
+            # As in __getitem__: the same symbols given as another sequence
+            # class name the same outcome.
+            outcome = self._outcome_ctor(outcome)
+        except (TypeError, ditException):
+            raise InvalidOutcome(outcome)
+
         if not self.has_outcome(outcome, null=True):
             # Then, the outcome is not in the sample space.
             raise InvalidOutcome(outcome)
